@@ -176,11 +176,11 @@ def drvStep (s : St) (args : List String) : St × String :=
       let evs := h.trace.reverse.filterMap fun e => match e with
         | .batchSign true => some "sign:ok"
         | .batchSign false => some "sign:fail"
-        | .sendSign S _ => some s!"send:{S.length}"
+        | .sendSign S _ g => some s!"send:{S.length}@{match g with | some g => s!"{g.id}.{g.tid}" | none => "-"}"
         | .sendReject => some "reject"
         | _ => none
       let sent := h.trace.findSome? fun e => match e with
-        | .sendSign S _ => some S
+        | .sendSign S _ _ => some S
         | _ => none
       let sigPart := match sent with
         | some S => s!" tx={(h.st.pending.map Batch.tid).getD 0} sigs={fmtSigs S}"
